@@ -1714,6 +1714,9 @@ def gen_conn_spec(rng, storage=None):
     rounds.append(dict(kind='savepoint-fail', size=rng.choice([1, 300])))
     # a transaction that only declares readCurrent and is aborted (it never joined), or that also wrote
     # and failed: the declaration must not outlive it
+    # a change made through a HISTORICAL connection (db.open(before=… / at=…)): its commit is refused with
+    # ReadOnlyHistoryError only after the storage transaction has begun
+    rounds.append(dict(kind='historical', how=rng.choice(['before', 'at']), size=1))
     rounds.append(dict(kind='readcurrent', how='readonly', size=1))
     rounds.append(dict(kind='readcurrent', how='joined', when='vote', size=1))
     rounds.append(dict(kind='import', savepoint=rng.random() < 0.5, cut=rng.choice([0.3, 0.6, 0.95]), size=1))
@@ -1938,14 +1941,28 @@ def conn_case(ck, root, spec):
                 label = 'multidb-' + rd['how']
             if rd['kind'] == 'readcurrent':
                 label = 'readcurrent-' + rd['how']
+            if rd['kind'] == 'historical':
+                label = 'historical-' + rd['how']
             ck.count('conn:' + label)
             ck.count('conn-storage:' + skind + (':explicit' if explicit else ''))
             try:
                 restart(tm1)
                 tmc = tm1                    # the transaction manager whose commit fails
                 pre_raised = None
-                objs = [r1[k] for k in keys] if rd['kind'] != 'undo' else []
+                objs = [r1[k] for k in keys] if rd['kind'] not in ('undo', 'historical') else []
                 newobjs = []
+                ch = None
+                if rd['kind'] == 'historical':
+                    tmc = transaction.TransactionManager()
+                    r1[keys[0]]._p_activate()
+                    ser = r1[keys[0]]._p_serial           # a point in the past at which the object exists
+                    try:
+                        ch = db.open(tmc, **({'before': p64(u64(ser) + 1)} if rd['how'] == 'before' else {'at': ser}))
+                    except ValueError:
+                        # (MVCCMappingStorage's main object never learns the last tid: "in the future")
+                        ck.count('conn:historical-not-supported:' + skind)
+                        continue
+                    ch.root()[keys[0]]['v'] = 'changed-in-the-past-%d' % n
                 if rd['kind'] == 'readcurrent':
                     c1.readCurrent(r1['rc'])
                     objs = objs[:1] if rd['how'] == 'joined' else []
@@ -2032,6 +2049,8 @@ def conn_case(ck, root, spec):
                 except Exception as e:          # the failure under test
                     raised = e
                 tmc.abort()
+                if ch is not None:
+                    ch.close()
                 evs = [e for e in rec.events[n0:] if e[0] in ('write', 'trunc') and e[1] == 'Data.fs']
                 kinds = ''.join('w' if e[0] == 'write' else 't' for e in evs)
                 ck.count('conn:data-trace:' + ('write+trunc' if 't' in kinds else (kinds and 'write' or 'none')))
